@@ -234,6 +234,9 @@ pub fn count_definite_preemptions(p: &Program, hist: &[HEv]) -> Option<usize> {
     let nt = p.n_threads();
     let mut open: Vec<Option<(usize, bool)>> = vec![None; nt]; // (pc, enabled at invoke)
     let mut foreign = vec![false; nt];
+    // a thread that called yield_now while nothing else could run keeps its offer standing in
+    // loom: the first later switch away from it is that yield taking effect, not a preemption
+    let mut yield_pending = vec![false; nt];
     let mut count = 0usize;
     let mut ch = ScriptChoose::default();
     for ev in hist {
@@ -255,9 +258,14 @@ pub fn count_definite_preemptions(p: &Program, hist: &[HEv]) -> Option<usize> {
                 foreign[t] = false;
             }
             HK::Ret => {
-                if let Some((_, en)) = open[t].take() {
-                    if en && foreign[t] {
-                        count += 1;
+                if let Some((pc, en)) = open[t].take() {
+                    if foreign[t] {
+                        if en && !yield_pending[t] {
+                            count += 1;
+                        }
+                        yield_pending[t] = false;
+                    } else if matches!(p.threads[t][pc].inner(), Op::Yield) {
+                        yield_pending[t] = true;
                     }
                 }
                 if m.in_compound_first_phase(t) {
@@ -287,6 +295,7 @@ pub fn run_c15_case(p: &Program, cfg: &Config) -> CaseReport {
         return rep;
     }
     let total_ops = p.total_ops();
+    let yields = p.threads.iter().flatten().any(|o| matches!(o.inner(), Op::Yield | Op::Await { .. } | Op::AwaitY { .. }));
     let mut prev: Option<(usize, std::collections::BTreeSet<String>)> = None;
     let mut bounded_runs = 0u64;
     let mut pruned = 0u64;
@@ -320,6 +329,13 @@ pub fn run_c15_case(p: &Program, cfg: &Config) -> CaseReport {
                     break;
                 }
             }
+        }
+        if yields {
+            // result sets of programs that yield are not compared (see checks.rs)
+            if !rep.violations.is_empty() {
+                break;
+            }
+            continue;
         }
         // (b) monotone, and contained in the unbounded set
         if let Some(miss) = t.outcome_set.iter().find(|o| !t_inf.outcome_set.contains(*o)) {
